@@ -60,6 +60,7 @@ Record TOk (T : table) : Prop := mkTOk {
   o_ray_need : t_ray_need T = true;
   o_mesh_clear : forall k, t_mesh_clear T k = true; o_mesh_notify : forall k, t_mesh_notify T k = true;
   o_meshset_need : t_meshset_need T = true; o_meshset_sub : t_meshset_sub T = true;
+  o_meshset_initsols : t_meshset_initsols T = true;
   o_updmesh_need : t_updmesh_need T = true;
   o_bcinit : t_bcinit T <> NNever; o_dirichlet : t_dirichlet T <> NNever; o_lagrange : t_lagrange T <> NNever;
   o_newton_need : t_newton_need T = true;
@@ -110,6 +111,7 @@ Proof.
     apply HC in E. simpl in E. subst. unfold csrkey.
     rewrite (o_csr_key_groups _ O), (o_csr_key_ndof _ O). reflexivity.
   - unfold derived_used. rewrite (o_model_cache_refresh _ O). reflexivity.
+  - apply (i_st _ _ _ I).
 Qed.
 
 Theorem observe_is_ideal T p mc ms s :
@@ -142,9 +144,9 @@ Definition Stale (s : simS) : Prop :=
 Lemma inv_struct p ms s : SimInv p ms s -> Struct ms s.
 Proof. intros []. constructor; auto. Qed.
 
-Lemma struct_stale_inv p ms s : Struct ms s -> Stale s -> SimInv p ms s.
+Lemma struct_stale_inv p ms s : Struct ms s -> Stale s -> st s = cur (cf s) -> SimInv p ms s.
 Proof.
-  intros [] [H1 H2]. constructor; auto.
+  intros [] [H1 H2] Hst. constructor; auto.
   - intros K N. rewrite (H1 K) in N. discriminate.
   - intros K U. destruct (H2 K) as [E _]. congruence.
   - intros K U. destruct (H2 K) as [_ E]. congruence.
@@ -165,9 +167,14 @@ Lemma raise_cf T s : cf (raise T s) = cf s.
 Proof. unfold raise. destruct (kd s); reflexivity. Qed.
 Lemma raise_rg T s : rg (raise T s) = rg s.
 Proof. unfold raise. destruct (kd s); reflexivity. Qed.
+Lemma raise_st T s : st (raise T s) = st s.
+Proof. unfold raise. destruct (kd s); reflexivity. Qed.
 
 Lemma raise_inv T p ms s : TOk T -> SimInv p ms s -> SimInv p ms (raise T s).
-Proof. intros O I. apply struct_stale_inv. apply raise_struct, inv_struct with p; auto. apply raise_stale; auto. Qed.
+Proof.
+  intros O I. apply struct_stale_inv. apply raise_struct, inv_struct with p; auto. apply raise_stale; auto.
+  rewrite raise_st, raise_cf. apply (i_st _ _ _ I).
+Qed.
 
 Lemma apply_mode_inv T md lag p ms s : TOk T -> SimInv p ms s -> SimInv p ms (apply_mode T md lag s).
 Proof. intros O I. unfold apply_mode. destruct md; auto using raise_inv. destruct lag; auto using raise_inv. Qed.
@@ -211,6 +218,7 @@ Proof.
   - intros K N. rewrite (ideal_frame p ms ms'); auto. apply (i_kcmf _ _ _ I); auto.
   - intros K U. rewrite (ideal_frame p ms ms'); auto. apply (i_pfU _ _ _ I); auto.
   - intros K U. rewrite (ideal_frame p ms ms'); auto. apply (i_pfD _ _ _ I); auto.
+  - apply (i_st _ _ _ I).
 Qed.
 
 (* ---- geometry of the mesh list under cache fills ---------------------------------------- *)
@@ -304,11 +312,12 @@ Proof. intros [H1 H2]. split; simpl; auto. Qed.
 
 (* a configuration change followed by Need_Update *)
 Lemma recfg_raise T p ms s c :
-  TOk T -> SimInv p ms s -> In (cur c) (subs (rg s)) -> SimInv p ms (raise T (set_cf s c)).
+  TOk T -> SimInv p ms s -> In (cur c) (subs (rg s)) -> cur c = cur (cf s) -> SimInv p ms (raise T (set_cf s c)).
 Proof.
-  intros O I H. apply struct_stale_inv.
+  intros O I H Hc. apply struct_stale_inv.
   - apply raise_struct, recfg_struct; auto. eapply inv_struct; eauto.
   - apply raise_stale; auto.
+  - rewrite raise_st, raise_cf. simpl. rewrite Hc. apply (i_st _ _ _ I).
 Qed.
 
 Lemma set_solU_inv p ms v s :
@@ -347,6 +356,7 @@ Proof.
   rewrite R. simpl. apply struct_stale_inv.
   - apply raise_struct. eapply inv_struct; eauto.
   - apply raise_stale; auto.
+  - rewrite raise_st, raise_cf. apply (i_st _ _ _ I).
 Qed.
 
 Lemma mget_upd_neq m j g ms : m <> j -> mget (upd_nth m g ms) j = mget ms j.
@@ -358,7 +368,7 @@ Proof.
   intros O I. unfold react_mesh. rewrite (o_mesh_notify _ O). simpl.
   destruct (existsb (Nat.eqb m) (subs (rg s))) eqn:E.
   - rewrite (o_upd_mesh_clear _ O), (o_upd_mesh_need _ O).
-    apply struct_stale_inv; [|apply raise_stale; auto].
+    apply struct_stale_inv; [|apply raise_stale; auto|rewrite raise_st, raise_cf; simpl; apply (i_st _ _ _ I)].
     apply raise_struct. eapply struct_frame.
     + apply clear_struct. eapply inv_struct; eauto.
     + rewrite upd_nth_length. auto.
@@ -381,34 +391,39 @@ Qed.
 Lemma mget_app ms x j : j < length ms -> mget (ms ++ [x]) j = mget ms j.
 Proof. intros. unfold mget. apply app_nth1. auto. Qed.
 
+Lemma set_st_same_inv p ms s : SimInv p ms s -> SimInv p ms (set_st s (cur (cf s))).
+Proof. intros []. constructor; simpl; auto. Qed.
+
+Lemma apply_mode_st T md lag s : st (apply_mode T md lag s) = st s.
+Proof. unfold apply_mode. destruct md; try destruct lag; auto using raise_st. Qed.
+Lemma apply_mode_cf T md lag s : cf (apply_mode T md lag s) = cf s.
+Proof. unfold apply_mode. destruct md; try destruct lag; auto using raise_cf. Qed.
+Lemma apply_mode_struct T md lag ms s : Struct ms s -> Struct ms (apply_mode T md lag s).
+Proof. intros. unfold apply_mode. destruct md; try destruct lag; auto using raise_struct. Qed.
+Lemma apply_mode_stale T md lag s : TOk T -> Stale s -> Stale (apply_mode T md lag s).
+Proof. intros. unfold apply_mode. destruct md; try destruct lag; auto using raise_stale. Qed.
+
 Lemma setmesh_sim_inv T m v1 v2 p ms s :
   TOk T -> m < length ms -> SimInv p ms s -> SimInv p ms (setmesh_sim T m v1 v2 s).
 Proof.
-  intros O Hm I. unfold setmesh_sim. rewrite (o_meshset_sub _ O), (o_meshset_need _ O).
+  intros O Hm I. unfold setmesh_sim.
+  rewrite (o_meshset_sub _ O), (o_meshset_need _ O), (o_meshset_initsols _ O).
   pose proof (inv_struct _ _ _ I) as St.
-  set (a := set_rg (set_cur m s) _).
+  set (a := set_rg (set_cur m _) _).
   assert (Sa : Struct ms a).
   { destruct St. constructor; simpl; auto.
     - eapply Forall_impl; [|exact s_mass0]. simpl. intros e [H1 H2]. auto.
     - eapply Forall_impl; [|exact s_iters0]. simpl. auto. }
   set (b := if t_meshset_clear T then clear_simcache a else a).
   assert (Sb : Struct ms b) by (unfold b; destruct (t_meshset_clear T); auto using clear_struct).
+  assert (Eb : st b = m /\ cur (cf b) = m) by (unfold b; destruct (t_meshset_clear T); simpl; auto).
   set (c := raise T b).
   assert (Sc : Struct ms c) by (apply raise_struct; auto).
   assert (Tc : Stale c) by (apply raise_stale; auto).
-  assert (Sd : Struct ms (set_bc 0 0 c)).
-  { apply recfg_struct; auto. simpl. destruct Sc; auto. }
-  assert (Td : Stale (set_bc 0 0 c)) by (apply recfg_stale; auto).
-  set (d := apply_mode T (t_bcinit T) _ (set_bc 0 0 c)).
-  assert (Id : SimInv p ms d).
-  { unfold d. apply apply_mode_inv; auto. apply struct_stale_inv; auto. }
-  assert (Td' : Stale d).
-  { unfold d, apply_mode. destruct (t_bcinit T); auto using raise_stale.
-    destruct (negb _); auto using raise_stale. }
-  destruct Td' as [T1 T2].
-  apply set_solD_inv.
-  - apply set_solU_inv; auto. intros K. apply T2; auto.
-  - simpl. intros K. apply T2; auto.
+  apply struct_stale_inv.
+  - apply apply_mode_struct. apply recfg_struct; auto; simpl; destruct Sc; auto.
+  - apply apply_mode_stale; auto; apply recfg_stale; auto.
+  - rewrite apply_mode_st, apply_mode_cf. simpl. unfold c. rewrite raise_st, raise_cf. destruct Eb as [-> ->]. reflexivity.
 Qed.
 
 Lemma setiter_sim_inv T j v1 v2 p ms s :
@@ -417,28 +432,48 @@ Proof.
   intros O I. unfold setiter_sim. destruct (nth_error (iters (rg s)) j) as [m|] eqn:E; auto.
   assert (Hm : In m (subs (rg s))).
   { pose proof (i_iters _ _ _ I) as H. rewrite Forall_forall in H. apply H. eapply nth_error_In; eauto. }
-  set (s1 := if Nat.eqb m (cur (cf s)) then s else _).
+  pose proof (inv_struct _ _ _ I) as St.
+  set (s0 := set_st (set_solD v2 (set_solU v1 s)) m).
+  assert (S0 : Struct ms s0) by (destruct St; constructor; simpl; auto).
+  set (s1 := if Nat.eqb m (cur (cf s)) then s0 else _).
   assert (K1 : kd s1 = kd s).
   { unfold s1. destruct (Nat.eqb m (cur (cf s))); auto. rewrite (o_updmesh_need _ O). rewrite raise_kd.
     destruct (t_updmesh_clear T); reflexivity. }
-  assert (I1 : SimInv p ms s1).
-  { unfold s1. destruct (Nat.eqb m (cur (cf s))); auto. rewrite (o_updmesh_need _ O).
-    apply struct_stale_inv; [|apply raise_stale; auto]. apply raise_struct.
-    assert (Struct ms (set_cur m s)) by (apply recfg_struct; auto; eapply inv_struct; eauto).
-    destruct (t_updmesh_clear T); auto using clear_struct. }
+  assert (S1 : Struct ms s1 /\ st s1 = cur (cf s1)).
+  { unfold s1. destruct (Nat.eqb m (cur (cf s))) eqn:Em.
+    - apply Nat.eqb_eq in Em. split; auto.
+    - rewrite (o_updmesh_need _ O). split.
+      + apply raise_struct.
+        assert (Struct ms (set_cur m s0)) by (apply recfg_struct; auto).
+        destruct (t_updmesh_clear T); auto using clear_struct.
+      + rewrite raise_st, raise_cf. destruct (t_updmesh_clear T); reflexivity. }
+  destruct S1 as [S1 E1].
+  assert (N1 : kd s <> KPF -> SimInv p ms s1).
+  { intros NK. unfold s1. destruct (Nat.eqb m (cur (cf s))) eqn:Em.
+    - apply Nat.eqb_eq in Em. unfold s0.
+      assert (SimInv p ms (set_solD v2 (set_solU v1 s))).
+      { apply set_solD_inv; [apply set_solU_inv; auto|]; simpl; intros; congruence. }
+      destruct H. constructor; simpl in *; auto.
+    - rewrite (o_updmesh_need _ O). apply struct_stale_inv.
+      + apply raise_struct.
+        assert (Struct ms (set_cur m s0)) by (apply recfg_struct; auto).
+        destruct (t_updmesh_clear T); auto using clear_struct.
+      + apply raise_stale; auto.
+      + rewrite raise_st, raise_cf. destruct (t_updmesh_clear T); reflexivity. }
   destruct (kd s) eqn:K.
-  - apply set_solD_inv; [apply set_solU_inv; auto|]; simpl; intros; congruence.
-  - apply set_solD_inv; [apply set_solU_inv; auto|]; simpl; intros; congruence.
+  - apply N1. congruence.
+  - apply N1. congruence.
   - rewrite (o_pf_setiter_d _ O), (o_pf_setiter_u _ O).
     apply struct_stale_inv.
-    + pose proof (inv_struct _ _ _ I1) as []. constructor; simpl; auto.
+    + destruct S1. constructor; simpl; auto.
     + split; simpl; intros; auto. congruence.
+    + simpl. auto.
 Qed.
 
 Lemma solve_sim_inv T v1 v2 p mc ms s :
   TOk T -> Forall MeshInv ms -> SimInv p ms s -> SimInv p ms (solve_sim T p mc ms v1 v2 s).
 Proof.
-  intros O HM I. unfold solve_sim. destruct (kd s) eqn:K.
+  intros O HM I. unfold solve_sim. apply set_st_same_inv. unfold solve_sim0. destruct (kd s) eqn:K.
   - apply set_solU_inv. apply getk_sim_inv; auto.
     unfold getk_sim. destruct (need (ca s)); simpl; intros; congruence.
   - rewrite (o_newton_need _ O). apply set_solU_inv.
@@ -535,7 +570,7 @@ Proof. intros O. unfold run. revert w. induction ops; simpl; auto. intros. apply
    object carrying the same coordinates (empty caches everywhere) *)
 Definition fresh_sim (s : simS) : simS :=
   mkSim (kd s) (cf s) (mkCache true None [] []) (mkPf false false None None)
-        (mkReg [cur (cf s)] [cur (cf s)] true true []).
+        (mkReg [cur (cf s)] [cur (cf s)] true true []) (cur (cf s)).
 Definition pristine1 (m : meshS) : meshS := mkMesh (pose m) (shape m) None.
 Definition pristine (ms : list meshS) : list meshS := map pristine1 ms.
 
@@ -598,7 +633,7 @@ Theorem staggered_flags T p mc ms v1 v2 s : table_ok T = true -> kd s = KPF ->
   updD (pf s') = false /\ updU (pf s') = true /\ option_map k_sol (kU (pf s')) = Some v1 /\
   solD (cf s') = v1 /\ solU (cf s') = v2.
 Proof.
-  intros H K. apply table_ok_spec in H. unfold solve_sim. rewrite K.
+  intros H K. apply table_ok_spec in H. unfold solve_sim, solve_sim0. rewrite K.
   rewrite (o_pf_dmg_inval_u _ H), (o_pf_el_inval_d _ H).
   unfold getkU at 1. simpl. unfold getkD. destruct (updD (pf s)); simpl; auto.
 Qed.
